@@ -173,6 +173,8 @@ def witnesses(spec, base_cfg, names, wd, timeout=300, workers=None):
     kept, skip = [], False
     for line in base.splitlines():
         st = line.strip()
+        if re.match(r"^VIEW\b", st):
+            continue  # witnesses may mention variables outside the view
         if re.match(r"^(INVARIANTS?|PROPERTY|PROPERTIES|POSTCONDITION)\b", st):
             skip = not re.match(r"^(POSTCONDITION)\b", st) or True
             if re.match(r"^(INVARIANTS?|PROPERTY|PROPERTIES|POSTCONDITION)\s+\S", st):
